@@ -152,3 +152,186 @@ Example C03_nonvacuous_chk :
   (* an agent whose placement failed (cell taken by a non-overlappable agent): ginv holds, 302 reported *)
   ginvb (init_state 1 2 [] [ex_ag 1 (0, 0) HD None; ex_ag 1 (0, 0) HD None]) = 302.
 Proof. split; [apply all_placed_b; reflexivity|]. split; vm_compute; reflexivity. Qed.
+
+(* =====================================================================================================
+   End-to-end instance (supports C01, C03, C07, C08, C16).  Grid/BattleSim.v packages the component
+   models (grid state, binary attack actor, move actor, centred observer, ActiveDone /
+   OneTeamRemainingDone, read-and-reset rewards) with a transcription of TeamBattleSim.step as
+   `battle_sim cf : simulation bstate (list (list Z)) unit bact`, an instance of the record over which
+   the manager, wrapper and trainer theorems are proved.  Random draws and the state after each reset
+   are oracle streams inside the state, so "for every bstate" quantifies over every oracle.
+   Discharged here: done_stable (getters never touch the grid), order <> [] (every agent learns),
+   preservation of the invariant by reset / step / getters.  Remaining hypotheses of the generic
+   theorems: in_protocol histories (steps only while an episode runs) for the manager invariants;
+   ginv of the given start states (placement is C13: C13_legal).
+   ===================================================================================================== *)
+From Abm Require Import Ctl.Managers Ctl.Trainer Grid.BattleSim
+  Proofs.Managers_proofs Proofs.Managers_hist Proofs.BattleSim_proofs.
+
+(* TeamBattleSim.step keeps the invariant: every action dictionary (any keys, any offsets, any attack
+   counts, duplicates, dead agents), every oracle content *)
+Theorem C03_e2e_step_ginv : forall cf st acts,
+  ginv (bs_grid st) -> ginv (bs_grid (bs_step cf st acts)).
+Proof. exact bs_step_ginv. Qed.
+Print Assumptions C03_e2e_step_ginv.
+
+(* get_obs / get_reward, in any number and order, leave the grid and the start-state stream alone *)
+Theorem C03_e2e_getters_pure : forall cf s s',
+  greach (battle_sim cf) s s' -> bs_grid s' = bs_grid s /\ bs_starts s' = bs_starts s.
+Proof. exact greach_frame. Qed.
+Print Assumptions C03_e2e_getters_pure.
+
+(* hence the purity hypothesis of the turn-based / dynamic-order / trainer theorems holds *)
+Theorem C03_e2e_done_stable : forall cf, done_stable (battle_sim cf).
+Proof. exact battle_done_stable. Qed.
+Print Assumptions C03_e2e_done_stable.
+
+(* the invariant holds in every simulation state any manager (all-step, turn-based, dynamic order,
+   also the pre-repair turn manager) reaches by ANY call list, in or out of protocol *)
+Theorem C03_e2e_ginv_reachable : forall cf k s0 cs,
+  ginv (bs_grid s0) -> Forall ginv (bs_starts s0) ->
+  ginv (bs_grid (m_sim (snd (run (battle_sim cf) k (init s0) cs)))) /\
+  forall e, In e (trace (battle_sim cf) k (init s0) Fresh cs) ->
+    ginv (bs_grid (m_sim (te_pre e))) /\ ginv (bs_grid (m_sim (te_post e))).
+Proof. exact battle_ginv_reachable. Qed.
+Print Assumptions C03_e2e_ginv_reachable.
+
+(* C01/C07 along in-protocol histories of the battle simulation *)
+Theorem C03_e2e_invariants_all : forall cf s0 cs,
+  ginv (bs_grid s0) -> Forall ginv (bs_starts s0) ->
+  in_protocol (trace (battle_sim cf) MAll (init s0) Fresh cs) ->
+  forall e, In e (trace (battle_sim cf) MAll (init s0) Fresh cs) ->
+    ginv (bs_grid (m_sim (te_pre e))) /\ ginv (bs_grid (m_sim (te_post e))) /\
+    do_call (battle_sim cf) MAll (te_pre e) (te_call e) = (te_resp e, te_post e) /\
+    NoDup (ep_dones (trace (battle_sim cf) MAll (init s0) Fresh cs) []).
+Proof. exact battle_invariants_all. Qed.
+Print Assumptions C03_e2e_invariants_all.
+
+Theorem C03_e2e_invariants_turn : forall cf s0 cs,
+  ginv (bs_grid s0) -> Forall ginv (bs_starts s0) ->
+  in_protocol (trace (battle_sim cf) MTurn (init s0) Fresh cs) ->
+  forall e, In e (trace (battle_sim cf) MTurn (init s0) Fresh cs) ->
+    (te_ph e = Live -> tinv (battle_sim cf) (te_pre e)) /\
+    ginv (bs_grid (m_sim (te_pre e))) /\ ginv (bs_grid (m_sim (te_post e))) /\
+    do_call (battle_sim cf) MTurn (te_pre e) (te_call e) = (te_resp e, te_post e).
+Proof. exact battle_invariants_turn. Qed.
+Print Assumptions C03_e2e_invariants_turn.
+
+Theorem C03_e2e_history_steps_turn : forall cf s0 cs,
+  in_protocol (trace (battle_sim cf) MTurn (init s0) Fresh cs) ->
+  forall e acts sh, In e (trace (battle_sim cf) MTurn (init s0) Fresh cs) -> te_call e = CStep acts sh ->
+    match te_resp e with
+    | ROut o =>
+        wfo o /\ NoDup (keys o) /\ (forall a, In a (keys o) -> ~ In a (m_done (te_pre e))) /\
+        ~ submits_done (m_done (te_pre e)) acts /\ incl (m_done (te_pre e)) (m_done (te_post e)) /\
+        greach (battle_sim cf) (bs_step cf (m_sim (te_pre e)) acts) (m_sim (te_post e)) /\
+        o_all o = bs_all cf (bs_step cf (m_sim (te_pre e)) acts)
+                  || all_in (battle_sim cf) (m_done (te_post e)) /\
+        (o_all o = false -> forall a, In (a, true) (o_done o) -> In a (m_done (te_post e)))
+    | RObs _ => False
+    | _ => te_post e = te_pre e
+    end.
+Proof. exact battle_steps_turn. Qed.
+Print Assumptions C03_e2e_history_steps_turn.
+
+Theorem C03_e2e_done_at_most_once_turn : forall cf s0 cs,
+  in_protocol (trace (battle_sim cf) MTurn (init s0) Fresh cs) ->
+  NoDup (ep_dones (trace (battle_sim cf) MTurn (init s0) Fresh cs) []).
+Proof. exact battle_done_once_turn. Qed.
+Print Assumptions C03_e2e_done_at_most_once_turn.
+
+(* manager o simulation: a done flag in a manager's output is the negation of the agent's `active`
+   flag in the grid the call leaves behind, and an agent reported done stands in no cell *)
+Theorem C03_e2e_done_entries_all : forall cf m acts sh o m',
+  all_step (battle_sim cf) m acts sh = (ROut o, m') ->
+  forall a b rec, In (a, b) (o_done o) -> agent (bs_grid (m_sim m')) a = Some rec ->
+    b = negb (a_active rec) /\
+    (b = true -> ginv (bs_grid (m_sim m')) ->
+     forall p, ~ In a (cell_get (g_cells (bs_grid (m_sim m'))) p)).
+Proof. exact battle_all_done_entries. Qed.
+Print Assumptions C03_e2e_done_entries_all.
+
+Theorem C03_e2e_done_entries_turn : forall cf m acts o m',
+  tinv (battle_sim cf) m -> turn_step (battle_sim cf) m acts = (ROut o, m') ->
+  bs_all cf (bs_step cf (m_sim m) acts) = false ->
+  forall a b rec, In (a, b) (o_done o) -> agent (bs_grid (m_sim m')) a = Some rec ->
+    b = negb (a_active rec) /\
+    (b = true -> ginv (bs_grid (m_sim m')) ->
+     forall p, ~ In a (cell_get (g_cells (bs_grid (m_sim m'))) p)).
+Proof. exact battle_turn_done_entries. Qed.
+Print Assumptions C03_e2e_done_entries_turn.
+
+(* C16 over the battle simulation: episode generation never acts for a finished agent *)
+Theorem C03_e2e_trainer_never_fails :
+  forall PS cf pmap (pol_act : PS -> nat -> list (list Z) -> bact * PS) pol_reset shuf h k m ps,
+  bc_agents cf <> [] -> k = MAll \/ k = MTurn ->
+  er_status (generate_episode (battle_sim cf) pmap pol_act pol_reset shuf h k m ps) = EOk /\
+  exists obs, er_reset (generate_episode (battle_sim cf) pmap pol_act pol_reset shuf h k m ps) = RObs obs.
+Proof. exact battle_trainer_never_fails. Qed.
+Print Assumptions C03_e2e_trainer_never_fails.
+
+(* the error arms of the two loop bodies of TeamBattleSim.step are unreachable: with the invariant,
+   every active agent placed and as many agents as configured (wfn), for a key naming an agent, both
+   bodies keep these facts, the move body never flags, and the attack body flags only where the model
+   reports a missing / inadmissible recorded draw (PBadOracle), never an exception arm *)
+Theorem C03_e2e_no_error_arms : forall cf st ia,
+  wfn (length (bc_agents cf)) (bs_grid st) -> (fst ia < length (bc_agents cf))%nat ->
+  wfn (length (bc_agents cf)) (bs_grid (attack_one cf st ia)) /\
+  wfn (length (bc_agents cf)) (bs_grid (move_one st ia)) /\
+  bs_bad (move_one st ia) = bs_bad st /\
+  (bs_bad (attack_one cf st ia) = bs_bad st \/
+   exists b, nth_error (bc_agents cf) (fst ia) = Some b /\
+     process_attack vis_model (bs_grid st) (b_att b) (fst ia) (bs_orc st)
+                    (ABinary (ba_attack (snd ia))) = PBadOracle).
+Proof. exact battle_no_error_arms. Qed.
+Print Assumptions C03_e2e_no_error_arms.
+
+(* the tree as found (findings/C02-binary-attack-ndarray): BinaryAttackActor returns numpy's ndarray
+   and TeamBattleSim.step tests its truth value -- two hits in one step raise ValueError.  The model
+   of that code flags the step (clause 308 of the component's checker); the documented behaviour
+   (a list) does not.  Witness: 3x3, agent 0 with simultaneous_attacks = 2 between two enemies. *)
+Theorem C03_e2e_multi_attack_prefix_refuted :
+  exists cf st acts,
+    wfn (length (bc_agents cf)) (bs_grid st) /\ bs_bad st = false /\
+    bs_bad (bs_step_prefix cf st acts) = true /\
+    bs_bad (bs_step cf st acts) = false /\ bs_rew (bs_step cf st acts) = [199; -100; -100].
+Proof. exact multi_attack_prefix_refuted. Qed.
+Print Assumptions C03_e2e_multi_attack_prefix_refuted.
+
+(* the recorded run is the managers' run *)
+Theorem C03_e2e_run_snap_is_run : forall cf k cs m,
+  map fst (fst (run_snap cf k m cs)) = fst (run (battle_sim cf) k m cs) /\
+  snd (run_snap cf k m cs) = snd (run (battle_sim cf) k m cs).
+Proof. exact run_snap_run. Qed.
+Print Assumptions C03_e2e_run_snap_is_run.
+
+(* the extracted checker of the end-to-end component (ginvb on every recorded snapshot, flag clear)
+   answers 1 on the extracted model's own output, for every decodable input whose start states are
+   legal and on which the recorded draws were admissible *)
+Theorem C03_e2e_chk_model : forall xin i,
+  dec_e2e xin = Some i -> NoDup (map fst (ei_ov i)) ->
+  Forall (fun g => ginv g /\ all_placed g) (bs_starts (ei_init i)) ->
+  bs_bad (m_sim (snd (e2e_records i))) = false ->
+  run_chk_e2e (L [xin; run_e2e xin]) = A 1.
+Proof. exact run_chk_e2e_model. Qed.
+Print Assumptions C03_e2e_chk_model.
+
+(* non-vacuity: a legal start state, an all-step step in which agent 0 kills agent 1 (+1 / -1), agent 2
+   walks into the wall (-0.1), everybody pays 0.01; the turn-based newly-done arm *)
+Example C03_e2e_nonvacuous :
+  bs_good 3 3 [] (e2_s0 [2; 1; 2; 1; 2; 2; 1; 2; 1; 1; 2; 1]) /\
+  (let r := run_snap e2_cf MAll (init (e2_s0 [2; 1; 2; 1; 2; 2; 1; 2; 1; 1; 2; 1]))
+                     [CReset; CStep e2_acts e2_acts] in
+   map fst (fst r) = e2_out_all /\ bs_bad (m_sim (snd r)) = false /\ m_done (snd r) = [1%nat] /\
+   map (fun rg => ginvb (snd rg)) (fst r) = [0; 0] /\
+   cell_get (g_cells (bs_grid (m_sim (snd r)))) (1, 2) = []) /\
+  (let r := run_snap e2_cf MTurn (init (e2_s0 [2; 1; 2; 1; 2; 1])) [CReset; CStep [e2_a0] []] in
+   in_protocol (trace (battle_sim e2_cf) MTurn (init (e2_s0 [2; 1; 2; 1; 2; 1])) Fresh
+                      [CReset; CStep [e2_a0] []]) /\
+   map fst (fst r) =
+     [RObs [(0%nat, [[2; 0; 0]; [0; 1; 2]; [0; 0; 0]])];
+      ROut {| o_obs := [(1%nat, [[0; 0; -1]; [1; 0; -1]; [0; 0; -1]]); (2%nat, [[-1; -1; -1]; [-1; 2; 0]; [-1; 0; 1]])];
+              o_rew := [(1%nat, -100); (2%nat, 0)]; o_done := [(1%nat, true); (2%nat, false)];
+              o_info := [(1%nat, tt); (2%nat, tt)]; o_all := false |}] /\
+   bs_bad (m_sim (snd r)) = false /\ m_done (snd r) = [1%nat] /\ m_ptr (snd r) = 0%nat).
+Proof. exact e2_nonvacuous. Qed.
